@@ -89,6 +89,36 @@ let levels_of_text (s : string) : levels =
       else match prod_of_text h with Some p -> Some (HProd p) | None -> None) (split_on hs ",") in
     (assoc, handles)) (split_on s "/")
 
+let rec int_of_pos = function XH -> 1 | XO p -> 2 * int_of_pos p | XI p -> 2 * int_of_pos p + 1
+let int_of_z = function Z0 -> 0 | Zpos p -> int_of_pos p | Zneg p -> - (int_of_pos p)
+
+(* canonical form of a deterministic table: breadth-first renumbering of the states from state 0
+   (terminals before non-terminals, by index), then the sorted list of renamed cells *)
+let canon_table (tbl : table) : string list =
+  let acts = List.map (fun ((s, a), x) -> (int_of_z s, a, x)) tbl.t_action in
+  let gotos = List.map (fun ((s, a), t) -> (int_of_z s, int_of_nat a, int_of_z t)) tbl.t_goto in
+  let ren = Hashtbl.create 32 in
+  Hashtbl.replace ren 0 0;
+  let q = Queue.create () in Queue.add 0 q;
+  let next = ref 1 in
+  let visit t = if not (Hashtbl.mem ren t) then begin Hashtbl.replace ren t !next; incr next; Queue.add t q end in
+  while not (Queue.is_empty q) do
+    let s = Queue.pop q in
+    let sh = List.filter_map (fun (s', a, x) -> match a, x with
+      | Some c, Shift t when s' = s -> Some (int_of_nat c, int_of_z t) | _ -> None) acts in
+    List.iter (fun (_, t) -> visit t) (List.sort Stdlib.compare sh);
+    let gt = List.filter_map (fun (s', a, t) -> if s' = s then Some (a, t) else None) gotos in
+    List.iter (fun (_, t) -> visit t) (List.sort Stdlib.compare gt)
+  done;
+  let r s = match Hashtbl.find_opt ren s with Some k -> string_of_int k | None -> "u" ^ string_of_int s in
+  let cells =
+    List.map (fun (s, a, x) ->
+      Printf.sprintf "%s,%s:%s" (r s) (string_of_look a)
+        (match x with Shift t -> "s" ^ r (int_of_z t) | Reduce p -> "r" ^ string_of_prod p | Accept -> "acc")) acts
+    @ List.map (fun (s, a, t) -> Printf.sprintf "%s,%c:%s" (r s) (Char.chr (65 + a)) (r t)) gotos in
+  List.sort Stdlib.compare cells
+
+let slr_fuel = nat_of_int 200
 let big_fuel = nat_of_int 20000
 let sim_fuel = nat_of_int 400
 let lang_fuel = nat_of_int 4000
@@ -126,7 +156,7 @@ let () =
           match split_on opres "->" with
           | [a; b] -> (trim a, trim b) | [a] -> (trim a, "?") | _ -> (opres, "?")) body in
         let maxlen = List.fold_left (fun m (op, _) ->
-          match split_on op " " with "W" :: w :: _ -> max m (String.length w) | _ -> m) 0 opl in
+          match split_on op " " with "W" :: w :: _ -> Stdlib.max m (String.length w) | _ -> m) 0 opl in
         setmax "max_string_length" maxlen;
         setmax "max_productions" (List.length prods);
         setmax "max_nonterminals" (String.length nts);
@@ -163,6 +193,29 @@ let () =
             let rt = split_on res " " in
             let kind = List.hd rt in
             Hashtbl.replace status m (kind, !opno);
+            (* the modelled SLR construction (LR(0) automaton, FOLLOW, ResolveConflicts) against the Go one *)
+            if m = "slr" && kind <> "INVALID" then begin
+              let mres = build_slr slr_fuel g levels in
+              let mk = match mres with BuiltOk _ -> "OK" | BuiltConflict _ -> "CONFLICT" | BuiltError -> "ERR" | BuiltNoFuel -> "NOFUEL" in
+              bump ("model_slr_" ^ mk) 1;
+              let gk = if starts_with kind "ERR" then "ERR" else kind in
+              if mk = "NOFUEL" then ()
+              else if (gk = "OK" || gk = "CONFLICT" || gk = "ERR") && gk <> mk then
+                mism !opno "fidelity" (Printf.sprintf "slr construction: implementation %s, modelled construction %s" gk mk)
+              else match mres with
+                | BuiltOk mt when gk = "OK" ->
+                  let pt = parse_table (List.tl rt) in
+                  (match pt.tbl with
+                   | Some gt when pt.raw_conflicts = 0 && pt.bad = None ->
+                     let a = canon_table gt and b = canon_table mt in
+                     if a <> b then begin
+                       let only l1 l2 = List.filter (fun x -> not (List.mem x l2)) l1 in
+                       mism !opno "fidelity" (Printf.sprintf "slr table differs from the modelled construction after canonical renumbering: only in implementation [%s], only in model [%s]"
+                         (String.concat " " (only a b)) (String.concat " " (only b a)))
+                     end else bump "slr_tables_equal_to_model" 1
+                   | _ -> ())
+                | _ -> ()
+            end;
             if starts_with kind "PANIC" || kind = "HANG" then begin
               bump "construction_crashes" 1;
               mism !opno "api" (Printf.sprintf "%s construction: %s (must return a table or a conflict error)" m res)
